@@ -82,7 +82,10 @@ def main():
         for i, k in enumerate(ks):
             d[k] = str(k) if not hasattr(k, 'name') else k.name
         synth.append(d)
-        synth.append({'outer': dict(d), 'flags': set(list(MySQLCapability)[:6] if env % 2 == 0 else reversed(list(MySQLCapability)[:6]))})
+        # (a set large enough for colliding hash slots: only then does the iteration order follow the insertion order)
+        caps = list(MySQLCapability)[::2]
+        synth.append({'outer': dict(d), 'flags': set(caps if env % 2 == 0 else reversed(caps)),
+                      'names': set(['x%d' % i for i in range(12)] if env % 2 == 0 else ['x%d' % i for i in reversed(range(12))])})
     holder_cls = type(objects.holder(None))
     for v in synth:
         objs.append((holder_cls, objects.holder(v)))
@@ -91,6 +94,28 @@ def main():
         idx.reverse()
     elif order == 'shuffle':
         random.Random(99 + env).shuffle(idx)
+    if env % 2:
+        # equal objects built along another path: every set-valued field refilled in the opposite insertion order
+        import attr
+        rebuilt = []
+        for cls, obj in objs:
+            try:
+                if attr.has(type(obj)):
+                    for f in attr.fields(type(obj)):
+                        v = getattr(obj, f.name, None)
+                        if type(v) is set and len(v) > 1:
+                            try:
+                                order = sorted(v, reverse=True)
+                            except TypeError:
+                                order = list(v)[::-1]
+                            nv = set()
+                            for x in order:
+                                nv.add(x)
+                            setattr(obj, f.name, nv)
+            except Exception:  # pylint: disable=broad-except
+                pass
+            rebuilt.append((cls, obj))
+        objs = rebuilt
     recs = {}
     for i in idx:
         cls, obj = objs[i]
